@@ -44,6 +44,15 @@ pub assume_specification [usize::leading_zeros] (x: usize) -> (r: u32)
             && (x as int) < 2 * vstd::arithmetic::power2::pow2((usize::BITS - 1 - r) as nat),
 ;
 
+/// ASSUMED contract of `usize::div_ceil` (std): ceiling division; panics on a zero divisor (precondition).  Not called by the crate at
+/// the pinned commit; present so that a change which starts to use it is decided instead of stopping the verifier.
+pub assume_specification [usize::div_ceil] (a: usize, b: usize) -> (r: usize)
+    requires
+        b != 0,
+    ensures
+        r as int == (a as int + b as int - 1) / (b as int),
+;
+
 /// ASSUMED contract of `usize::trailing_zeros` (std): position of the lowest set bit.  Not called by the crate at the pinned
 /// commit; present so that a change which starts to use it is DECIDED against the contracts instead of stopping the verifier.
 pub uninterp spec fn spec_usize_tz(x: usize) -> u32;
